@@ -1,5 +1,10 @@
 
 // ===== appended by /verif (overlay only): Kani proof harnesses for gc.rs (C03, C04) =====
+// gc.rs is verbatim; the `bitvec` crate is replaced in the overlay by a Vec<bool> model (harness/shim_bitvec) whose
+// get_unchecked/set_unchecked are bounds-CHECKED, so a wrong bitmap index is reported.  Heap shape and root set are
+// fixed per harness (a symbolic root subset makes the freed object, hence the tag `Object::free` dispatches on,
+// symbolic and CBMC does not finish: measured); payloads are symbolic.  CBMC's memory model reports use after free,
+// double free and out-of-bounds accesses on every path.
 #[cfg(kani)]
 pub(crate) mod __verif_k {
     use super::*;
@@ -9,51 +14,33 @@ pub(crate) mod __verif_k {
         let mut i = 0;
         let mut found = false;
         while i < gc.objects.len() {
-            if std::ptr::eq(gc.objects[i].as_ptr(), o.as_ptr()) { found = true; }
+            if std::ptr::eq(gc.objects[i].as_ptr(), o.as_ptr()) {
+                found = true;
+            }
             i += 1;
         }
         found
     }
 
-    /// two floats, any subset of them rooted (through one or two root slices): exactly the rooted ones survive, intact
-    #[kani::proof]
-    #[kani::unwind(5)]
-    fn c03_two_floats() {
-        let mut gc = GC::new();
-        let a = Object::float(1.5, &mut gc);
-        let b = Object::float(2.5, &mut gc);
-        let keep_a: bool = kani::any();
-        let keep_b: bool = kani::any();
-        let ra = [a];
-        let rb = [b];
-        let empty: [Object; 0] = [];
-        let r1: &[Object] = if keep_a { &ra } else { &empty };
-        let r2: &[Object] = if keep_b { &rb } else { &empty };
-        gc.run(&[r1, r2]);
-        assert!(gc.objects.len() == keep_a as usize + keep_b as usize);
-        assert!(managed(&gc, a) == keep_a && managed(&gc, b) == keep_b);
-        if keep_a { assert!(a.as_f64() == 1.5); }
-        if keep_b { assert!(b.as_f64() == 2.5); }
-        kani::cover!(keep_a && !keep_b);
-        kani::cover!(!keep_a && keep_b);
-        kani::cover!(!keep_a && !keep_b);
-        // C04: dropping the collector releases what is left, exactly once (a double free is flagged by CBMC)
-        gc.destroy();
-        assert!(gc.objects.len() == 0);
-        std::mem::forget(gc);
+    fn f(gc: &mut GC, bits: u64) -> Object {
+        Object::float(f64::from_bits(bits), gc)
     }
 
-    /// concrete heap shape and root set, symbolic payloads
+    fn is_float(o: Object, bits: u64) -> bool {
+        o.tag() == Type::Float && o.as_f64().to_bits() == bits
+    }
+
     macro_rules! floats_harness {
         ($name:ident, $keep_a:expr, $keep_b:expr) => {
+            /// two floats; roots spread over two slices; exactly the rooted ones survive, intact; then everything is released
             #[kani::proof]
             #[kani::unwind(5)]
             fn $name() {
                 let mut gc = GC::new();
                 let xa: u64 = kani::any();
                 let xb: u64 = kani::any();
-                let a = Object::float(f64::from_bits(xa), &mut gc);
-                let b = Object::float(f64::from_bits(xb), &mut gc);
+                let a = f(&mut gc, xa);
+                let b = f(&mut gc, xb);
                 let ra = [a];
                 let rb = [Object::int(kani::any::<i32>() as isize), b];
                 let empty: [Object; 0] = [];
@@ -62,9 +49,9 @@ pub(crate) mod __verif_k {
                 gc.run(&[r1, r2]);
                 assert!(gc.objects.len() == $keep_a as usize + $keep_b as usize);
                 assert!(managed(&gc, a) == $keep_a && managed(&gc, b) == $keep_b);
-                if $keep_a { assert!(a.as_f64().to_bits() == xa); }
-                if $keep_b { assert!(b.as_f64().to_bits() == xb); }
-                gc.destroy();
+                if $keep_a { assert!(is_float(a, xa)); }
+                if $keep_b { assert!(is_float(b, xb)); }
+                gc.destroy(); // C04: what is left is released exactly once (a double free is a CBMC failure)
                 assert!(gc.objects.len() == 0);
                 kani::cover!(xa == 7);
                 std::mem::forget(gc);
@@ -75,4 +62,145 @@ pub(crate) mod __verif_k {
     floats_harness!(c03_floats_keep_a, true, false);
     floats_harness!(c03_floats_keep_b, false, true);
     floats_harness!(c03_floats_keep_both, true, true);
+
+    /// a list holding a float and a text, plus a loose float: root = the list only
+    #[kani::proof]
+    #[kani::unwind(6)]
+    fn c03_list_keeps_its_elements() {
+        let mut gc = GC::new();
+        let x: u64 = kani::any();
+        let inner = f(&mut gc, x);
+        let text = Object::string("ab", &mut gc);
+        let loose = f(&mut gc, kani::any());
+        let list = Object::array(vec![inner, Object::int(3), text], &mut gc);
+        gc.run(&[&[list]]);
+        assert!(gc.objects.len() == 3);
+        assert!(managed(&gc, list) && managed(&gc, inner) && managed(&gc, text) && !managed(&gc, loose));
+        let v = list.as_vec();
+        assert!(v.len() == 3 && is_float(v[0], x) && v[1].as_int() == 3);
+        assert!(v[2].as_str().len() == 2 && v[2].as_str().as_bytes()[0] == b'a');
+        // second collection without roots frees the rest
+        gc.run(&[]);
+        assert!(gc.objects.len() == 0);
+        kani::cover!(x == 1);
+        std::mem::forget(gc);
+    }
+
+    /// the same float in two lists; only one list is rooted: the float survives, the other list goes
+    #[kani::proof]
+    #[kani::unwind(6)]
+    fn c03_alias_through_two_lists() {
+        let mut gc = GC::new();
+        let x: u64 = kani::any();
+        let shared = f(&mut gc, x);
+        let a = Object::array(vec![shared], &mut gc);
+        let b = Object::array(vec![Object::null(), shared], &mut gc);
+        gc.run(&[&[], &[b]]);
+        assert!(gc.objects.len() == 2);
+        assert!(managed(&gc, b) && managed(&gc, shared) && !managed(&gc, a));
+        assert!(is_float(b.as_vec()[1], x));
+        gc.destroy();
+        assert!(gc.objects.len() == 0);
+        kani::cover!(x == 1);
+        std::mem::forget(gc);
+    }
+
+    /// a list that contains itself and a nested list: marking terminates, everything reachable survives; unrooted, all of it goes once
+    #[kani::proof]
+    #[kani::unwind(6)]
+    fn c03_cycle_and_nesting() {
+        let mut gc = GC::new();
+        let x: u64 = kani::any();
+        let deep = f(&mut gc, x);
+        let inner = Object::array(vec![deep], &mut gc);
+        let mut outer = Object::array(vec![inner, Object::null()], &mut gc);
+        let me = outer;
+        outer.as_vec_mut()[1] = me; // cycle
+        gc.run(&[&[outer]]);
+        assert!(gc.objects.len() == 3);
+        assert!(managed(&gc, outer) && managed(&gc, inner) && managed(&gc, deep));
+        assert!(is_float(inner.as_vec()[0], x));
+        gc.run(&[&[Object::int(1)]]);
+        assert!(gc.objects.len() == 0);
+        kani::cover!(x == 1);
+        std::mem::forget(gc);
+    }
+
+    /// multi-step history: a list survives one collection, a fresh value is stored into it, a second collection runs
+    #[kani::proof]
+    #[kani::unwind(6)]
+    fn c03_store_into_survivor_then_collect() {
+        let mut gc = GC::new();
+        let x: u64 = kani::any();
+        let y: u64 = kani::any();
+        let first = f(&mut gc, x);
+        let mut list = Object::array(vec![first], &mut gc);
+        let garbage = f(&mut gc, 1);
+        gc.run(&[&[list]]);
+        assert!(gc.objects.len() == 2 && !managed(&gc, garbage));
+        let fresh = f(&mut gc, y);
+        list.as_vec_mut()[0] = fresh; // `first` becomes garbage, `fresh` is reachable only through the survivor
+        gc.run(&[&[list]]);
+        assert!(gc.objects.len() == 2);
+        assert!(managed(&gc, list) && managed(&gc, fresh) && !managed(&gc, first));
+        assert!(is_float(list.as_vec()[0], y));
+        gc.destroy();
+        kani::cover!(x == y);
+        std::mem::forget(gc);
+    }
+
+    /// hand-over to the caller: untrace(result) releases the whole result graph from the collector; the collector
+    /// never frees it afterwards, the caller frees it exactly once, values stored into it later stay alive
+    #[kani::proof]
+    #[kani::unwind(6)]
+    fn c04_untrace_hands_over() {
+        let mut gc = GC::new();
+        let x: u64 = kani::any();
+        let y: u64 = kani::any();
+        let inner = f(&mut gc, x);
+        let mut result = Object::array(vec![inner, Object::int(2)], &mut gc);
+        let other = f(&mut gc, 5);
+        gc.untrace(result);
+        assert!(gc.objects.len() == 1 && managed(&gc, other) && !managed(&gc, result) && !managed(&gc, inner));
+        // a value stored into the handed-over list while something still refers to it (a global of a retained VM)
+        let late = f(&mut gc, y);
+        result.as_vec_mut()[1] = late;
+        gc.run(&[&[result]]);
+        assert!(gc.objects.len() == 1 && managed(&gc, late) && !managed(&gc, other));
+        assert!(is_float(result.as_vec()[0], x) && is_float(result.as_vec()[1], y));
+        // nothing refers to it any more: the collector releases `late`, never the handed-over objects
+        gc.run(&[]);
+        assert!(gc.objects.len() == 0);
+        assert!(is_float(result.as_vec()[0], x));
+        // the caller releases the result: list and first element (the second was the collector's and is gone)
+        result.as_vec_mut()[1] = Object::null();
+        result.free_recursive();
+        kani::cover!(x == 1);
+        std::mem::forget(gc);
+    }
+
+    /// maybe_trace adopts only heap values; trace/untrace of an unknown object is harmless
+    #[kani::proof]
+    #[kani::unwind(6)]
+    fn c04_adopt_and_release() {
+        let mut gc = GC::new();
+        let (o, _) = (Object::int(kani::any::<i32>() as isize), 0);
+        gc.maybe_trace(o);
+        gc.maybe_trace(Object::null());
+        gc.maybe_trace(Object::bool(kani::any()));
+        assert!(gc.objects.len() == 0);
+        let mut other = GC::new();
+        let foreign = f(&mut other, 3);
+        gc.untrace(foreign); // not ours: nothing happens
+        assert!(gc.objects.len() == 0 && other.objects.len() == 1);
+        other.untrace(foreign);
+        gc.maybe_trace(foreign); // adopted: released by gc, exactly once
+        assert!(gc.objects.len() == 1);
+        gc.destroy();
+        other.destroy();
+        assert!(gc.objects.len() == 0 && other.objects.len() == 0);
+        kani::cover!(true);
+        std::mem::forget(gc);
+        std::mem::forget(other);
+    }
 }
